@@ -215,6 +215,13 @@ func World(cfg Config) *spec.World {
 	for _, f := range cfg.Force {
 		x.on[f] = true
 	}
+	if cfg.AnnService {
+		// worlds with the Annotated echo service carry every annotated type (except that custom
+		// enum values and numeric enum encoding are kept on different enums)
+		for _, f := range AnnotationFeatures {
+			x.on[f] = true
+		}
+	}
 	if cfg.Mock && !x.on[RMockRecursive] {
 		// the mock generator recurses without bound on recursive message types (probe world only)
 		delete(x.on, FRecursive)
@@ -409,8 +416,10 @@ func (x *g) bodyField(m *spec.Message, taken map[string]bool, num int32) *spec.F
 		switch f.Kind {
 		case "string":
 			f.Examples = []string{"ex-a", "ex b", "é"}
-		case "int32", "int64":
+		case "int32":
 			f.Examples = pick(x.r, [][]string{{"1", "2", "3"}, {"-7"}, {"12", "not-a-number"}})
+		case "int64":
+			f.Examples = pick(x.r, [][]string{{"1", "2", "4294967296123"}, {"-9007199254740993"}, {"12", "not-a-number"}})
 		case "bool":
 			f.Examples = []string{"true", "false"}
 		case "float", "double":
@@ -964,7 +973,7 @@ func (x *g) mockSafeField(taken map[string]bool, num int32, depth int) *spec.Fie
 		case "string":
 			f.Examples = pick(x.r, [][]string{{"alpha", "beta", "gamma"}, {"only"}, {"é", "x y", "a-b"}})
 		case "int64":
-			f.Examples = pick(x.r, [][]string{{"1", "2", "3"}, {"-7"}, {"9007199254740993", "0"}, {"12", "not-a-number"}})
+			f.Examples = pick(x.r, [][]string{{"1", "2", "4294967296123"}, {"-7", "-9007199254740993"}, {"9007199254740993", "0"}, {"12", "not-a-number"}})
 		case "bool":
 			f.Examples = pick(x.r, [][]string{{"true"}, {"false", "true"}, {"maybe", "true"}})
 		case "double":
